@@ -6,5 +6,5 @@ CONSTANTS
   Level = "full"
   RecordHist = FALSE
 INVARIANTS TypeOK Consistent TableTotal CloseThenOpen
-PROPERTIES AllAnswered CloseAnswered
+PROPERTIES AllAnswered CloseAnswered ErrKeepsState
 CHECK_DEADLOCK FALSE
